@@ -289,8 +289,8 @@ fn run(ctx: &mut Ctx) {
             judge(ctx, recs);
         }
         "sampled" => {
-            let k = ctx.rng.range(1, 8) as usize;
-            let mut recs = vec![good(&mut ctx.rng, true)];
+            let k = ctx.rng.range(0, 8) as usize;
+            let mut recs = if k == 0 { vec![] } else { vec![good(&mut ctx.rng, true)] };
             for _ in 1..k {
                 if ctx.rng.chance(2, 5) {
                     let f = ctx.rng.range(1, N_FAULTS);
